@@ -16,7 +16,7 @@ PROPERTY = "C02"
 RULE = (
     "E1 product enumeration through EnsembleEvaluator.calculate (combined and split paths): V x variable mask x R x "
     "realization weights x P x sampler (deterministic designs: axes, table, per-realization rotated, rank-deficient; "
-    "built-in norm/uniform/sobol/lhs with two seeds; shared or not) x affine ensemble (distinct / identical realizations) x "
+    "built-in norm/uniform/sobol/lhs with two seeds, and two built-in samplers assigned per variable; shared or not) x affine ensemble (distinct / identical realizations) x "
     "estimator map x merge on/off x failure pattern (none, one perturbation, one perturbation with min_success=P, one "
     "realization) x bounds/boundary/magnitude x filter {none, on objective 0 only, on the constraint only} x variable scaler. Reference: exact slope combination "
     "(mean: sum w_r a_r; stddev: chain rule), fixed entries ==0.0, weighted objective gradient = objective-weighted sum. "
@@ -40,7 +40,7 @@ EMAPS = [(0, 0, 0), (0, 1, 0), (0, 0, 1)]  # estimator index per (obj0, obj1, co
 WEIGHTS = {"uniform": lambda n: [1.0] * n, "ramp": lambda n: [float(i + 1) for i in range(n)],
            "zero": lambda n: [0.0 if i == 0 else float(i) for i in range(n)]}
 DESIGNS = ["axes", "table", "rotated", "deficient"]
-BUILTIN = ["norm", "uniform", "sobol", "lhs"]
+BUILTIN = ["norm", "uniform", "sobol", "lhs", "two"]  # "two": norm + uniform assigned per variable through gradient.samplers
 BOUNDKINDS = ["none", "loose", "tight-trunc", "tight-mirror"]
 FAILURES = ["none", "pert", "pert-strict", "real"]
 
@@ -82,6 +82,8 @@ def build(case: dict[str, Any]) -> tuple[dict[str, Any], Any]:
     sampler = case["sampler"]
     if sampler in DESIGNS:
         sconf = {"method": "verif/design", "options": {"design": design(sampler, R, P, d)}, "shared": case["shared"]}
+    elif sampler == "two":
+        sconf = None
     else:
         sconf = {"method": sampler, "shared": case["shared"]}
     bk = case["bounds"]
@@ -109,8 +111,10 @@ def build(case: dict[str, Any]) -> tuple[dict[str, Any], Any]:
             "seed": 7 + case["gseed"],
             "perturbation_min_success": P if case["failure"] != "pert" else max(1, P - 1),
         },
-        "samplers": [sconf],
+        "samplers": [sconf] if sconf is not None else [{"method": "norm", "shared": case["shared"]}, {"method": "uniform", "shared": not case["shared"]}],
     }
+    if sconf is None:
+        config["gradient"]["samplers"] = [0, 1, 0][:V]
     if case["filter"]:
         # "obj": the filter is mapped to objective 0 only; "con": to the constraint only (so that objective and
         # constraint weight rows always differ)
@@ -328,6 +332,8 @@ def shards(tier: str, seed: int) -> list[dict[str, Any]]:
                         continue
                     for sampler in DESIGNS + BUILTIN:
                         if tier == "quick" and sampler in ("uniform", "lhs"):
+                            continue
+                        if sampler == "two" and V < 2:
                             continue
                         out.append({"V": V, "mask": mask, "R": R, "P": P, "sampler": sampler, "tier": tier, "seed": seed})
     if tier == "quick":
